@@ -170,6 +170,15 @@ def gen_cases(tier, rng):
         cases.append((tb.case_txt([text], tb.opts(s=len(text) % 2), cx), "tb-fix-families"))
     for text, c in tb.deep_family(tier):
         cases.append((tb.case_txt([text], tb.opts(s=len(text) % 2)), "tb-deep"))
+    # a sink whose attach_declarative_shadow succeeds (sh=1): the template element is then only on the stack, never appended
+    for host in ("<div>", "<body><p>", "<table><tr><td>", "<svg><foreignObject>", "<select>", "<div><template>", "<b><i>"):
+        for mode in ("open", "closed", "OPEN", "x"):
+            for inner in ("x", "<table></table>", "<table><tr><td>a", "<b>y</template>z", "<template shadowrootmode=open>q</template>r",
+                          "</template><p>w", "<tr><td>c", "<script>s</script>", "a</div>b", "<col>", "<frameset>", "</b>t",
+                          "<select><option>o", "<svg><g>h</template>k"):
+                text = "%s<template shadowrootmode=%s>%s" % (host, mode, inner)
+                for frag in (None, tb.ctx("div"), tb.ctx("template")):
+                    cases.append((tb.case_txt([text], tb.opts(s=len(text) % 2) + ",sh=1", frag or "-"), "tb-shadow"))
     for text in tb.cdata_edge_texts()[::(3 if quick else 1)]:
         cases.append((tb.case_txt([text], tb.opts(s=0)), "tb-cdata"))
     for line, tag in tb.random_docs(rng, 3000 if quick else 80000):
